@@ -17,7 +17,8 @@ LEVEL_TEXT = ("pretty_next_run (also via SwitcherSchedule.display) is evaluated 
 RULE = ("case = (zone, local now, day mask, start minute); grid: 7 current weekdays x 128 masks x (now, start) minute pairs "
         "over {00:00,00:01,06:30,12:00,12:01,23:58,23:59}^2 plus (t,t-1),(t,t),(t,t+1) x seconds {0,30,59} x zones. "
         "Non-trivial = today selected and its time passed, or local weekday != UTC weekday, or >= 2 days selected; "
-        "distinct by (zone, weekday, now, mask, start).")
+        "distinct by (zone, weekday, now, mask, start)."
+        ' Also: 8 clock readings around midnight on the day before/of/after every UTC-offset change 2023-2025 of 6 zones (dst-midnight), clocks a fraction of a second before/after the start minute (subsecond), and the same record listed twice at two moments (repoll).')
 ASSUMPTIONS = [
     "time_machine virtual clock + zone; 'still ahead' means start minute > current minute (a start equal to the current minute is not ahead)",
     "the text is matched case-insensitively for the tokens 'today', 'tomorrow', 'next <Weekday>' and the HH:MM start time",
